@@ -30,7 +30,7 @@ var raceRuns atomic.Int64
 
 var goyaccTrace = regexp.MustCompile(`^state-\d+ saw \S+$`)
 
-func runVariant(idx int, tag string, c repeatCase, procs string, debug bool, inputMode string, outFile bool) (class string, out []byte, stdoutWhenFile []byte) {
+func runVariant(idx int, tag string, c repeatCase, procs string, debug bool, inputMode string, outFile bool, existing ...[]byte) (class string, out []byte, stdoutWhenFile []byte) {
 	dir := filepath.Join(outDir, fmt.Sprintf("repeat-%d-%s", idx, tag))
 	must(os.MkdirAll(dir, 0o755))
 	defer os.RemoveAll(dir)
@@ -51,6 +51,9 @@ func runVariant(idx int, tag string, c repeatCase, procs string, debug bool, inp
 	outPath := filepath.Join(dir, "out")
 	if outFile {
 		args = append(args, "-o", outPath)
+		if len(existing) > 0 { // the -o target already exists and holds more bytes than the command will write
+			must(os.WriteFile(outPath, existing[0], 0o644))
+		}
 	}
 	res := runCrdEnv(stdin, 30*time.Second, procs, args...)
 	class = res.class()
@@ -231,6 +234,13 @@ func streamRepeat() {
 				report("a failing command left bytes in the -o file", "-o FILE", fmt.Sprintf("file=%q", trunc(out)))
 			}
 		}
+		if bclass == "ok" {
+			old := append(append([]byte{}, base.stdout...), bytes.Repeat([]byte("previous content of the output file\n"), 40)...)
+			cl, out, _ := runVariant(i, "oexist", c, "", false, "stdin", true, old)
+			if cl != bclass || !bytes.Equal(out, base.stdout) {
+				report("writing with -o onto an existing, longer file does not leave exactly the bytes printed on stdout", "-o EXISTING-FILE", fmt.Sprintf("class %s vs %s; %d bytes in the file, %d on stdout; %s", bclass, cl, len(out), len(base.stdout), diff(base.stdout, out)))
+			}
+		}
 		if raceBin := os.Getenv("CRD_RACE_BIN"); raceBin != "" && (strings.HasPrefix(c.kind, "text-conv") || i%7 == 0) {
 			res := runBinEnv(raceBin, c.stdin, 60*time.Second, "4", c.args...)
 			if bytes.Contains(res.stderr, []byte("DATA RACE")) {
@@ -250,7 +260,7 @@ func streamRepeat() {
 			s.add(c.conv.req(), convReply(results[i].base))
 		}
 	}
-	s.stats["runs-per-case"] = reps + 5
+	s.stats["runs-per-case"] = reps + 6
 	s.stats["race-detector-runs"] = int(raceRuns.Load())
 }
 
